@@ -41,6 +41,7 @@ DECLARED = {
 # struct fields with a fixed unit: (owner suffix, field) -> unit
 FIELD_UNIT = {
     ('lsp_types::Position', 'character'): 'U', ('lsp_types::Position', 'line'): 'L',
+    ('TextDocumentContentChangeEvent', 'range_length'): 'U',
     ('span::CharSpan', 'start'): 'C', ('span::CharSpan', 'end'): 'C',
     ('span::Span', 'start'): 'B', ('span::Span', 'end'): 'B',
 }
@@ -59,6 +60,8 @@ def field_unit(place):
     """unit of a place by its last field projection, or None"""
     for p in reversed(place['proj']):
         if p['p'] == 'field':
+            if p.get('owner', '').endswith(('option::Option', 'result::Result')):
+                continue      # payload of Some(..)/Ok(..): the unit is that of the field holding the option
             for (own, fld), u in FIELD_UNIT.items():
                 if p.get('owner', '').endswith(own) and p['name'] == fld:
                     return u
